@@ -3,10 +3,12 @@ import OjgVerif.JPMut.LemmasRemove
 
 `delM_eq`: when Del (all matches, simple data, a path without recursive descent whose unions list no member
 twice and whose slices — as set.go reads them — select the indexes of the specification on the arrays they
-meet) reports no error, the data afterwards is `delAll (locs x d) d`: selected object members gone,
+meet) reports no error, the data afterwards is `delAll (locsG σ x d) d`: selected object members gone,
 selected array elements null, everything else as it was. -/
 namespace OjgVerif.JPMut
 open OjgVerif OjgVerif.JPath
+
+variable {σ : SliceFn} [NodupSlice σ]
 
 /-! ## `delAll` -/
 
@@ -100,34 +102,34 @@ theorem delObj_last (T : List Path) (hs : ∀ p ∈ T, ∃ l, p = [l]) : ∀ (kv
       rw [List.filter_cons_of_pos (by simpa using hc)]
 
 /-- the last level of Del on an array: the selected elements become null -/
-theorem delAll_last_arr (f : Frag) (xs : List JV) (hs : Shape f (.arr xs)) (p : Loc → Bool)
-    (hp : ∀ j v, xs[j]? = some v → (p (.idx j) = true ↔ ([Loc.idx j], v) ∈ sel f (.arr xs))) :
-    delAll (locs [f] (.arr xs)) (.arr xs) = mapKids (fun l c => if p l then JV.null else c) (.arr xs) := by
-  rw [delAll_congr _ _ _ (locs_single f _)]
-  simp only [delAll, delArr_last _ (selLocs_singletons f _ hs), mapKids]
+theorem delAll_last_arr (f : Frag) (xs : List JV) (hs : Shape σ f (.arr xs)) (p : Loc → Bool)
+    (hp : ∀ j v, xs[j]? = some v → (p (.idx j) = true ↔ ([Loc.idx j], v) ∈ selG σ f (.arr xs))) :
+    delAll (locsG σ [f] (.arr xs)) (.arr xs) = mapKids (fun l c => if p l then JV.null else c) (.arr xs) := by
+  rw [delAll_congr _ _ _ (locs_single (σ := σ) f _)]
+  simp only [delAll, delArr_last _ (selLocs_singletons (σ := σ) f _ hs), mapKids]
   congr 1
   apply mapArr_congr
   intro j v hv
   simp only [Nat.zero_add]
   have h1 := hp j v hv
-  have h2 := mem_selLocs f (.arr xs) hs (.idx j) v hv
-  cases hpj : p (.idx j) <;> cases hcj : ((sel f (.arr xs)).map (·.1)).contains [Loc.idx j] <;> simp_all
+  have h2 := mem_selLocs (σ := σ) f (.arr xs) hs (.idx j) v hv
+  cases hpj : p (.idx j) <;> cases hcj : ((selG σ f (.arr xs)).map (·.1)).contains [Loc.idx j] <;> simp_all
 
 /-- the last level of Del on an object: the selected members disappear -/
-theorem delAll_last_obj (f : Frag) (kvs : List (Bytes × JV)) (hn : (keysOf kvs).Nodup) (hs : Shape f (.obj kvs)) (p : Bytes × JV → Bool)
-    (hp : ∀ kv ∈ kvs, (p kv = true ↔ ([Loc.key kv.1], kv.2) ∈ sel f (.obj kvs))) :
-    delAll (locs [f] (.obj kvs)) (.obj kvs) = .obj (kvs.filter fun kv => !p kv) := by
-  rw [delAll_congr _ _ _ (locs_single f _)]
-  simp only [delAll, delObj_last _ (selLocs_singletons f _ hs)]
+theorem delAll_last_obj (f : Frag) (kvs : List (Bytes × JV)) (hn : (keysOf kvs).Nodup) (hs : Shape σ f (.obj kvs)) (p : Bytes × JV → Bool)
+    (hp : ∀ kv ∈ kvs, (p kv = true ↔ ([Loc.key kv.1], kv.2) ∈ selG σ f (.obj kvs))) :
+    delAll (locsG σ [f] (.obj kvs)) (.obj kvs) = .obj (kvs.filter fun kv => !p kv) := by
+  rw [delAll_congr _ _ _ (locs_single (σ := σ) f _)]
+  simp only [delAll, delObj_last _ (selLocs_singletons (σ := σ) f _ hs)]
   congr 1
   apply List.filter_congr
   intro kv hkv
   have h1 := hp kv hkv
-  have h2 := mem_selLocs f (.obj kvs) hs (.key kv.1) kv.2 (lookup_of_mem_nodup kvs hn kv hkv)
-  cases hpj : p kv <;> cases hcj : ((sel f (.obj kvs)).map (·.1)).contains [Loc.key kv.1] <;> simp_all
+  have h2 := mem_selLocs (σ := σ) f (.obj kvs) hs (.key kv.1) kv.2 (lookup_of_mem_nodup kvs hn kv hkv)
+  cases hpj : p kv <;> cases hcj : ((selG σ f (.obj kvs)).map (·.1)).contains [Loc.key kv.1] <;> simp_all
 
-theorem delAll_nosel (f : Frag) (d : JV) (h : sel f d = []) : delAll (locs [f] d) d = d := by
-  rw [delAll_congr _ _ _ (locs_single f d), h]
+theorem delAll_nosel (f : Frag) (d : JV) (h : selG σ f d = []) : delAll (locsG σ [f] d) d = d := by
+  rw [delAll_congr _ _ _ (locs_single (σ := σ) f d), h]
   exact delAll_nil d
 
 theorem absIdx_lt (n : Nat) (i : Int) (j : Nat) (h : absIdx n i = some j) : j < n := by
@@ -143,16 +145,16 @@ theorem absIdx_lt (n : Nat) (i : Int) (j : Nat) (h : absIdx n i = some j) : j < 
     · simp only [hh, if_false] at h; cases h
 
 /-- the fragment behaves in set.go as in the specification on the value `e` -/
-def GoodAtS (dev : Dev) (f : Frag) (e : JV) : Prop :=
+def GoodAtS (σ : SliceFn) (dev : Dev) (f : Frag) (e : JV) : Prop :=
   match f with
   | .union ms => (unionLocs ms e).Nodup
-  | .slice s e' t => ∀ xs, e = .arr xs → setIdx dev xs.length s e' t = sliceIdx xs.length s e' t
+  | .slice s e' t => ∀ xs, e = .arr xs → setIdx dev xs.length s e' t = σ xs.length s e' t
   | .descent => False
   | _ => True
 
-def GoodPathS (dev : Dev) : List Frag → JV → Prop
+def GoodPathS (σ : SliceFn) (dev : Dev) : List Frag → JV → Prop
   | [], _ => True
-  | f :: r, d => GoodAtS dev f d ∧ ∀ m ∈ sel f d, GoodPathS dev r m.2
+  | f :: r, d => GoodAtS σ dev f d ∧ ∀ m ∈ selG σ f d, GoodPathS σ dev r m.2
 
 /-- the fragment kinds set.go accepts in last position -/
 def endable : Frag → Bool
@@ -162,27 +164,27 @@ def endable : Frag → Bool
   | .union _ => true
   | _ => false
 
-theorem GoodAtS.notDescent {dev : Dev} {f : Frag} {e : JV} (h : GoodAtS dev f e) : isDescentF f = false := by
+theorem GoodAtS.notDescent {dev : Dev} {f : Frag} {e : JV} (h : GoodAtS σ dev f e) : isDescentF f = false := by
   cases f <;> simp_all [GoodAtS, isDescentF]
 
 /-- the members an inner Wildcard, Union, Slice or Filter of set.go hands on are the selected ones -/
-theorem setSteps_ok (dev : Dev) (f : Frag) (d : JV) (hw : TopNodup d) (hg : GoodAtS dev f d)
-    (hf : ∀ k, f ≠ .child k) (hf' : ∀ i, f ≠ .nth i) : StepsOK (setSteps dev f d) f d := by
+theorem setSteps_ok (dev : Dev) (f : Frag) (d : JV) (hw : TopNodup d) (hg : GoodAtS σ dev f d)
+    (hf : ∀ k, f ≠ .child k) (hf' : ∀ i, f ≠ .nth i) : StepsOK σ (setSteps dev f d) f d := by
   cases f with
   | child k => exact absurd rfl (hf k)
   | nth i => exact absurd rfl (hf' i)
   | wild =>
-    have h := stepsOK_wild d hw
+    have h := stepsOK_wild (σ := σ) d hw
     cases d <;> exact h
-  | union ms => exact (stepsOK_union ms d hg).reverse
+  | union ms => exact (stepsOK_union (σ := σ) ms d hg).reverse
   | slice s e t =>
-    have h := stepsOK_slice s e t d (setIdx dev · s e t) (fun xs h => hg xs h) (fun xs _ => sliceIdx_nodup _ s e t)
+    have h := stepsOK_slice (σ := σ) s e t d (setIdx dev · s e t) (fun xs h => hg xs h) (fun xs _ => NodupSlice.nodup _ s e t)
     cases d <;> exact h
   | filter p =>
     cases d with
-    | arr xs => exact stepsOK_filter p _ hw _ (stepsOK_wild (.arr xs) hw)
-    | obj kvs => exact stepsOK_filter p _ hw _ (stepsOK_wild (.obj kvs) hw)
-    | _ => exact stepsOK_scalar_nil _ _ rfl rfl
+    | arr xs => exact stepsOK_filter (σ := σ) p _ hw _ (stepsOK_wild (σ := σ) (.arr xs) hw)
+    | obj kvs => exact stepsOK_filter (σ := σ) p _ hw _ (stepsOK_wild (σ := σ) (.obj kvs) hw)
+    | _ => exact stepsOK_scalar_nil (σ := σ) _ _ rfl rfl
   | descent => cases hg
 
 /-! ## the last fragment of Del -/
@@ -269,7 +271,7 @@ theorem map_const_eq_mapArr (v : JV) : ∀ (xs : List JV) (o : Nat), xs.map (fun
 /-- the last fragment of Del: the selected members are deleted (objects) / set to null (arrays) -/
 theorem setLast_del (dev : Dev) (f : Frag) (d : JV) (hw : TopNodup d) (he : endable f = true)
     (hst : (setLast false dev false .del f d).st = .go) :
-    (setLast false dev false .del f d).d = delAll (locs [f] d) d := by
+    (setLast false dev false .del f d).d = delAll (locsG σ [f] d) d := by
   cases f with
   | descent => simp [endable] at he
   | slice s e t => simp [endable] at he
@@ -277,21 +279,21 @@ theorem setLast_del (dev : Dev) (f : Frag) (d : JV) (hw : TopNodup d) (he : enda
   | child k =>
     cases d with
     | obj kvs =>
-      have hs := Shape_of (.child k) (.obj kvs) rfl hw
+      have hs := Shape_of (σ := σ) (.child k) (.obj kvs) rfl hw
       simp only [setLast, writeKey]
       rw [kvErase_eq_filter, delAll_last_obj (.child k) kvs hw hs (fun kv => decide (kv.1 = k))]
       intro kv hkv
       have hlk := lookup_of_mem_nodup kvs hw kv hkv
-      rw [← (stepsOK_child k (.obj kvs)).mem (.key kv.1) kv.2 hlk]
+      rw [← (stepsOK_child (σ := σ) k (.obj kvs)).mem (.key kv.1) kv.2 hlk]
       simp [eq_comm]
     | arr xs =>
       have : (setLast false dev false .del (.child k) (.arr xs)).d = .arr xs := rfl
-      rw [this]; exact (delAll_nosel _ _ (by simp [sel, selMember])).symm
-    | _ => exact (delAll_nosel _ _ (sel_scalar _ _ rfl rfl)).symm
+      rw [this]; exact (delAll_nosel _ _ (by simp [selG, sel, selMember])).symm
+    | _ => exact (delAll_nosel _ _ (sel_scalar (σ := σ) _ _ rfl rfl)).symm
   | nth i =>
     cases d with
     | arr xs =>
-      have hs := Shape_of (.nth i) (.arr xs) rfl hw
+      have hs := Shape_of (σ := σ) (.nth i) (.arr xs) rfl hw
       simp only [setLast] at hst ⊢
       cases ha : absIdx xs.length i with
       | none => simp [ha] at hst
@@ -306,43 +308,43 @@ theorem setLast_del (dev : Dev) (f : Frag) (d : JV) (hw : TopNodup d) (he : enda
           intro l c _
           by_cases e : l = .idx j <;> simp [e, SetArg.elem]
         · intro j' v hv
-          rw [← (stepsOK_nth i (.arr xs)).mem (.idx j') v hv]
+          rw [← (stepsOK_nth (σ := σ) i (.arr xs)).mem (.idx j') v hv]
           simp [memberLoc, ha, eq_comm]
     | obj kvs =>
       have : (setLast false dev false .del (.nth i) (.obj kvs)).d = .obj kvs := rfl
-      rw [this]; exact (delAll_nosel _ _ (by simp [sel, selMember])).symm
-    | _ => exact (delAll_nosel _ _ (sel_scalar _ _ rfl rfl)).symm
+      rw [this]; exact (delAll_nosel _ _ (by simp [selG, sel, selMember])).symm
+    | _ => exact (delAll_nosel _ _ (sel_scalar (σ := σ) _ _ rfl rfl)).symm
   | wild =>
     cases d with
     | obj kvs =>
-      have hs := Shape_of .wild (.obj kvs) rfl hw
+      have hs := Shape_of (σ := σ) .wild (.obj kvs) rfl hw
       simp only [setLast, SetArg.isDel, Bool.false_eq_true, if_false, if_true]
       rw [delAll_last_obj .wild kvs hw hs (fun _ => true)]
       · simp
       · intro kv hkv
         have hlk := lookup_of_mem_nodup kvs hw kv hkv
-        rw [← (stepsOK_wild (.obj kvs) hw).mem (.key kv.1) kv.2 hlk]
+        rw [← (stepsOK_wild (σ := σ) (.obj kvs) hw).mem (.key kv.1) kv.2 hlk]
         simp only [mem_keyLocs, true_iff]
         exact ⟨kv.1, List.mem_map_of_mem (f := (·.1)) hkv, rfl⟩
     | arr xs =>
-      have hs := Shape_of .wild (.arr xs) rfl hw
+      have hs := Shape_of (σ := σ) .wild (.arr xs) rfl hw
       simp only [setLast, Bool.false_eq_true, if_false]
       rw [delAll_last_arr .wild xs hs (fun _ => true), map_const_eq_mapArr _ xs 0]
       · simp [mapKids, SetArg.elem]
       · intro j v hv
-        rw [← (stepsOK_wild (.arr xs) hw).mem (.idx j) v hv]
+        rw [← (stepsOK_wild (σ := σ) (.arr xs) hw).mem (.idx j) v hv]
         simp only [mem_idxLocs, true_iff]
         exact ⟨j, (List.getElem?_eq_some_iff.1 hv).1, rfl⟩
-    | _ => exact (delAll_nosel _ _ (sel_scalar _ _ rfl rfl)).symm
+    | _ => exact (delAll_nosel _ _ (sel_scalar (σ := σ) _ _ rfl rfl)).symm
   | union ms =>
     cases d with
     | obj kvs =>
-      have hs := Shape_of (.union ms) (.obj kvs) rfl hw
+      have hs := Shape_of (σ := σ) (.union ms) (.obj kvs) rfl hw
       simp only [setLast, setLastUnion_del_obj]
       rw [delAll_last_obj (.union ms) kvs hw hs (fun kv => hasKey ms kv.1)]
       intro kv hkv
       have hlk := lookup_of_mem_nodup kvs hw kv hkv
-      rw [← union_mem ms (.obj kvs) (.key kv.1) kv.2 hlk]
+      rw [← union_mem (σ := σ) ms (.obj kvs) (.key kv.1) kv.2 hlk]
       simp only [hasKey, List.any_eq_true, unionLocs, List.mem_filterMap]
       constructor
       · rintro ⟨mb, hmb, h⟩
@@ -356,14 +358,14 @@ theorem setLast_del (dev : Dev) (f : Frag) (d : JV) (hw : TopNodup d) (he : enda
         | key k => simp only [memberLoc, Option.some.injEq, Loc.key.injEq] at h; simp [h]
         | idx i' => simp [memberLoc] at h
     | arr xs =>
-      have hs := Shape_of (.union ms) (.arr xs) rfl hw
+      have hs := Shape_of (σ := σ) (.union ms) (.arr xs) rfl hw
       simp only [setLast, setLastUnion_arr]
       rw [delAll_last_arr (.union ms) xs hs (fun l => decide (l ∈ unionLocs ms (.arr xs)))]
       · apply mapKids_congr (.arr xs) trivial
         intro l c _
         by_cases e : l ∈ unionLocs ms (.arr xs) <;> simp [e, SetArg.elem]
       · intro j v hv
-        rw [← union_mem ms (.arr xs) (.idx j) v hv]
+        rw [← union_mem (σ := σ) ms (.arr xs) (.idx j) v hv]
         simp
     | _ =>
       have : ∀ (ms : List Member) (c : JV), isContainer c = false → setLastUnion false dev false .del ms c = ⟨c, .go⟩ := by
@@ -375,7 +377,7 @@ theorem setLast_del (dev : Dev) (f : Frag) (d : JV) (hw : TopNodup d) (he : enda
           cases mb <;> cases c <;> simp_all [setLastUnion, isContainer]
       simp only [setLast]
       rw [this ms _ rfl]
-      exact (delAll_nosel _ _ (sel_scalar _ _ rfl rfl)).symm
+      exact (delAll_nosel _ _ (sel_scalar (σ := σ) _ _ rfl rfl)).symm
 /-! ## statuses -/
 
 /-- the status of a visit is `go` or the status of one of the runs of the rest of the path -/
@@ -583,17 +585,17 @@ theorem setF_nostop (gen : Bool) (dev : Dev) (a : SetArg) : ∀ (x : List Frag) 
 
 /-- a path that goes on after `f` selects no one-step location -/
 theorem no_singleton (f : Frag) (rest : List Frag) (hr : rest ≠ []) (hnd : NoDescent rest) (d : JV) (hw : WF d)
-    (hs : Shape f d) : ∀ l, [l] ∉ locs (f :: rest) d := by
+    (hs : Shape σ f d) : ∀ l, [l] ∉ locsG σ (f :: rest) d := by
   intro l hl
-  obtain ⟨m', hm', q, hq, e⟩ := (mem_locs_cons f rest d [l]).1 hl
+  obtain ⟨m', hm', q, hq, e⟩ := (mem_locs_cons (σ := σ) f rest d [l]).1 hl
   obtain ⟨l', hl', hc'⟩ := hs m' hm'
   rw [hl'] at e
   simp only [List.singleton_append, List.cons.injEq] at e
   obtain ⟨_, rfl⟩ := e
-  exact locs_no_nil rest hr hnd m'.2 (WF_top _ (WF_child l' d m'.2 hw hc')) hq
+  exact locs_no_nil (σ := σ) rest hr hnd m'.2 (WF_top _ (WF_child l' d m'.2 hw hc')) hq
 
-theorem locs_nosel (f : Frag) (rest : List Frag) (d : JV) (h : sel f d = []) : locs (f :: rest) d = [] := by
-  simp [locs, eval, h]
+theorem locs_nosel (f : Frag) (rest : List Frag) (d : JV) (h : selG σ f d = []) : locsG σ (f :: rest) d = [] := by
+  simp [locsG, evalG, h]
 
 /-- a fragment that is not a descent does not look at the descent marker -/
 theorem setF_fl (gen : Bool) (dev : Dev) (one : Bool) (a : SetArg) (g : Frag) (r : List Frag) (hg : isDescentF g = false)
@@ -605,25 +607,25 @@ theorem getLast?_cons_cons {α : Type} (a b : α) (r : List α) : (a :: b :: r).
 
 /-- the visit of the members an inner Wildcard, Union, Slice or Filter of set.go hands on, for Del -/
 theorem delF_visit (dev : Dev) (f g : Frag) (r : List Frag) (d : JV) (hw : WF d) (hnd : NoDescent (f :: g :: r))
-    (hok : StepsOK (setSteps dev f d) f d)
-    (hrec : ∀ l c, child? l d = some c → ([l], c) ∈ sel f d →
+    (hok : StepsOK σ (setSteps dev f d) f d)
+    (hrec : ∀ l c, child? l d = some c → ([l], c) ∈ selG σ f d →
       (setF false dev false .del (g :: r) false c).st = .go →
-      (setF false dev false .del (g :: r) false c).d = delAll (locs (g :: r) c) c)
+      (setF false dev false .del (g :: r) false c).d = delAll (locsG σ (g :: r) c) c)
     (hst : (visitD (contOnly f) dev.descentSiblings (setF false dev false .del (g :: r)) false (setSteps dev f d) d).st = .go) :
     (visitD (contOnly f) dev.descentSiblings (setF false dev false .del (g :: r)) false (setSteps dev f d) d).d =
-      delAll (locs (f :: g :: r) d) d := by
+      delAll (locsG σ (f :: g :: r) d) d := by
   have hndg : isDescentF g = false := hnd g (by simp)
   have hndf : isDescentF f = false := hnd f (by simp)
   have hndr : NoDescent (g :: r) := fun g' hg' => hnd g' (List.mem_cons_of_mem _ hg')
   have hk : ∀ fl c, setF false dev false .del (g :: r) fl c = setF false dev false .del (g :: r) false c :=
     fun fl c => setF_fl false dev false .del g r hndg fl c
   obtain ⟨h1, h2⟩ := visitD_go (contOnly f) dev.descentSiblings _ hk (setSteps dev f d) false d hok.nodup (WF_top d hw) hst
-  rw [h1, delAll_inner _ (no_singleton f (g :: r) (by simp) hndr d hw hok.shape) d]
+  rw [h1, delAll_inner _ (no_singleton (σ := σ) f (g :: r) (by simp) hndr d hw hok.shape) d]
   apply mapKids_congr d (WF_top d hw)
   intro l c hc
   by_cases hl : l ∈ setSteps dev f d
   · have hsel := (hok.mem l c hc).1 hl
-    rw [delAll_congr c _ _ (strip_locs_sel f (g :: r) d hok.shape l c hc hsel)]
+    rw [delAll_congr c _ _ (strip_locs_sel (σ := σ) f (g :: r) d hok.shape l c hc hsel)]
     by_cases hp : pass (contOnly f) c = true
     · simp only [hl, hp, and_self, if_true]
       exact hrec l c hc hsel (h2 l hl c hc hp)
@@ -631,41 +633,41 @@ theorem delF_visit (dev : Dev) (f g : Frag) (r : List Frag) (d : JV) (hw : WF d)
         simp only [pass, Bool.not_eq_true', Bool.not_eq_false, Bool.and_eq_true, Bool.not_eq_true'] at hp
         exact hp.2
       simp only [hl, hp, and_false, Bool.false_eq_true, if_false]
-      rw [locs_scalar g r c hndg hsc, delAll_nil]
-  · have hsel : ([l], c) ∉ sel f d := fun h => hl ((hok.mem l c hc).2 h)
-    rw [delAll_congr c _ _ (strip_locs_not f (g :: r) d hok.shape l c hc hsel), delAll_nil]
+      rw [locs_scalar (σ := σ) g r c hndg hsc, delAll_nil]
+  · have hsel : ([l], c) ∉ selG σ f d := fun h => hl ((hok.mem l c hc).2 h)
+    rw [delAll_congr c _ _ (strip_locs_not (σ := σ) f (g :: r) d hok.shape l c hc hsel), delAll_nil]
     simp [hl]
 
 /-- following one existing member (Child, Nth in an inner position), for Del -/
 theorem delF_follow (dev : Dev) (f g : Frag) (r : List Frag) (d c : JV) (l : Loc) (hw : WF d) (hnd : NoDescent (f :: g :: r))
-    (hc : child? l d = some c) (hsel : ∀ l' c', child? l' d = some c' → (([l'], c') ∈ sel f d ↔ l' = l))
+    (hc : child? l d = some c) (hsel : ∀ l' c', child? l' d = some c' → (([l'], c') ∈ selG σ f d ↔ l' = l))
     (hrec : (setF false dev false .del (g :: r) false c).st = .go →
-      (setF false dev false .del (g :: r) false c).d = delAll (locs (g :: r) c) c)
+      (setF false dev false .del (g :: r) false c).d = delAll (locsG σ (g :: r) c) c)
     (hst : (setFollow l c (setF false dev false .del (g :: r)) d).st = .go) :
-    (setFollow l c (setF false dev false .del (g :: r)) d).d = delAll (locs (f :: g :: r) d) d := by
+    (setFollow l c (setF false dev false .del (g :: r)) d).d = delAll (locsG σ (f :: g :: r) d) d := by
   have hndf : isDescentF f = false := hnd f (by simp)
   have hndr : NoDescent (g :: r) := fun g' hg' => hnd g' (List.mem_cons_of_mem _ hg')
-  have hs := Shape_of f d hndf (WF_top d hw)
+  have hs := Shape_of (σ := σ) f d hndf (WF_top d hw)
   simp only [setFollow] at hst ⊢
   by_cases hcont : isContainer c = true
   · simp only [hcont, if_true] at hst ⊢
-    rw [hrec hst, putChild_eq_mapKids l _ d c (WF_top d hw) hc, delAll_inner _ (no_singleton f (g :: r) (by simp) hndr d hw hs) d]
+    rw [hrec hst, putChild_eq_mapKids l _ d c (WF_top d hw) hc, delAll_inner _ (no_singleton (σ := σ) f (g :: r) (by simp) hndr d hw hs) d]
     apply mapKids_congr d (WF_top d hw)
     intro l' c' hc'
     by_cases e : l' = l
     · subst e
       rw [hc] at hc'; injection hc' with hc'; subst hc'
       simp only [if_true]
-      rw [delAll_congr c _ _ (strip_locs_sel f (g :: r) d hs l' c hc ((hsel l' c hc).2 rfl))]
+      rw [delAll_congr c _ _ (strip_locs_sel (σ := σ) f (g :: r) d hs l' c hc ((hsel l' c hc).2 rfl))]
     · simp only [e, if_false]
-      have : ([l'], c') ∉ sel f d := fun h => e ((hsel l' c' hc').1 h)
-      rw [delAll_congr c' _ _ (strip_locs_not f (g :: r) d hs l' c' hc' this), delAll_nil]
+      have : ([l'], c') ∉ selG σ f d := fun h => e ((hsel l' c' hc').1 h)
+      rw [delAll_congr c' _ _ (strip_locs_not (σ := σ) f (g :: r) d hs l' c' hc' this), delAll_nil]
   · simp [hcont] at hst
 
 /-- Del (all matches, simple data, no descent): when no error is reported the data is `delAll` at the selected locations -/
 theorem delF_eq (dev : Dev) : ∀ (x : List Frag), x ≠ [] → NoDescent x → (∀ f, x.getLast? = some f → endable f = true) →
-    ∀ (fl : Bool) (d : JV), WF d → GoodPathS dev x d →
-    (setF false dev false .del x fl d).st = .go → (setF false dev false .del x fl d).d = delAll (locs x d) d
+    ∀ (fl : Bool) (d : JV), WF d → GoodPathS σ dev x d →
+    (setF false dev false .del x fl d).st = .go → (setF false dev false .del x fl d).d = delAll (locsG σ x d) d
   | [], h, _, _, _, _, _, _, _ => absurd rfl h
   | [f], _, hnd, hl, fl, d, hw, hg, hst => by
     have hndf : isDescentF f = false := hnd f (by simp)
@@ -678,10 +680,10 @@ theorem delF_eq (dev : Dev) : ∀ (x : List Frag), x ≠ [] → NoDescent x → 
     have hndr : NoDescent (g :: r) := fun g' hg' => hnd g' (List.mem_cons_of_mem _ hg')
     have hlr : ∀ f', (g :: r).getLast? = some f' → endable f' = true := by
       intro f' hf'; exact hl f' (by rw [getLast?_cons_cons]; exact hf')
-    have hs := Shape_of f d hndf (WF_top d hw)
-    have hrec : ∀ l c, child? l d = some c → ([l], c) ∈ sel f d →
+    have hs := Shape_of (σ := σ) f d hndf (WF_top d hw)
+    have hrec : ∀ l c, child? l d = some c → ([l], c) ∈ selG σ f d →
         (setF false dev false .del (g :: r) false c).st = .go →
-        (setF false dev false .del (g :: r) false c).d = delAll (locs (g :: r) c) c :=
+        (setF false dev false .del (g :: r) false c).d = delAll (locsG σ (g :: r) c) c :=
       fun l c hc hsel h => delF_eq dev (g :: r) (by simp) hndr hlr false c (WF_child l d c hw hc) (hg.2 ([l], c) hsel) h
     cases f with
     | descent => simp [isDescentF] at hndf
@@ -695,17 +697,17 @@ theorem delF_eq (dev : Dev) : ∀ (x : List Frag), x ≠ [] → NoDescent x → 
           have hc : child? (.key k) (.obj kvs) = some c := hlk
           refine delF_follow dev (.child k) g r (.obj kvs) c (.key k) hw hnd hc ?_ (hrec (.key k) c hc ?_) hst
           · intro l' c' hc'
-            rw [← (stepsOK_child k (.obj kvs)).mem l' c' hc']
+            rw [← (stepsOK_child (σ := σ) k (.obj kvs)).mem l' c' hc']
             simp
-          · rw [← (stepsOK_child k (.obj kvs)).mem (.key k) c hc]; simp
+          · rw [← (stepsOK_child (σ := σ) k (.obj kvs)).mem (.key k) c hc]; simp
         | none =>
           simp only [hlk, setCreate] at hst ⊢
-          rw [locs_nosel (.child k) (g :: r) (.obj kvs) (by simp [sel, selMember, hlk]), delAll_nil]
+          rw [locs_nosel (σ := σ) (.child k) (g :: r) (.obj kvs) (by simp [selG, sel, selMember, hlk]), delAll_nil]
       | arr xs =>
         have : setF false dev false .del (.child k :: g :: r) fl (.arr xs) = ⟨.arr xs, .go⟩ := by simp [setF]
-        rw [this, locs_nosel (.child k) (g :: r) (.arr xs) (by simp [sel, selMember]), delAll_nil]
+        rw [this, locs_nosel (σ := σ) (.child k) (g :: r) (.arr xs) (by simp [selG, sel, selMember]), delAll_nil]
       | _ =>
-        rw [locs_nosel (.child k) (g :: r) _ (sel_scalar _ _ rfl rfl), delAll_nil]
+        rw [locs_nosel (σ := σ) (.child k) (g :: r) _ (sel_scalar (σ := σ) _ _ rfl rfl), delAll_nil]
         simp [setF]
     | nth i =>
       cases d with
@@ -722,36 +724,36 @@ theorem delF_eq (dev : Dev) : ∀ (x : List Frag), x ≠ [] → NoDescent x → 
             have hc : child? (.idx j) (.arr xs) = some c := hx
             refine delF_follow dev (.nth i) g r (.arr xs) c (.idx j) hw hnd hc ?_ (hrec (.idx j) c hc ?_) hst
             · intro l' c' hc'
-              rw [← (stepsOK_nth i (.arr xs)).mem l' c' hc']
+              rw [← (stepsOK_nth (σ := σ) i (.arr xs)).mem l' c' hc']
               simp [memberLoc, ha]
-            · rw [← (stepsOK_nth i (.arr xs)).mem (.idx j) c hc]; simp [memberLoc, ha]
+            · rw [← (stepsOK_nth (σ := σ) i (.arr xs)).mem (.idx j) c hc]; simp [memberLoc, ha]
       | obj kvs =>
         have : setF false dev false .del (.nth i :: g :: r) fl (.obj kvs) = ⟨.obj kvs, .go⟩ := by simp [setF]
-        rw [this, locs_nosel (.nth i) (g :: r) (.obj kvs) (by simp [sel, selMember]), delAll_nil]
+        rw [this, locs_nosel (σ := σ) (.nth i) (g :: r) (.obj kvs) (by simp [selG, sel, selMember]), delAll_nil]
       | _ =>
-        rw [locs_nosel (.nth i) (g :: r) _ (sel_scalar _ _ rfl rfl), delAll_nil]
+        rw [locs_nosel (σ := σ) (.nth i) (g :: r) _ (sel_scalar (σ := σ) _ _ rfl rfl), delAll_nil]
         simp [setF]
     | wild =>
-      have hok := setSteps_ok dev .wild d (WF_top d hw) hg.1 (fun _ h => by cases h) (fun _ h => by cases h)
+      have hok := setSteps_ok (σ := σ) dev .wild d (WF_top d hw) hg.1 (fun _ h => by cases h) (fun _ h => by cases h)
       simp only [setF, List.isEmpty_cons, Bool.false_eq_true, if_false] at hst ⊢
       exact delF_visit dev .wild g r d hw hnd hok hrec hst
     | union ms =>
-      have hok := setSteps_ok dev (.union ms) d (WF_top d hw) hg.1 (fun _ h => by cases h) (fun _ h => by cases h)
+      have hok := setSteps_ok (σ := σ) dev (.union ms) d (WF_top d hw) hg.1 (fun _ h => by cases h) (fun _ h => by cases h)
       simp only [setF, List.isEmpty_cons, Bool.false_eq_true, if_false, Bool.false_and] at hst ⊢
       exact delF_visit dev (.union ms) g r d hw hnd hok hrec hst
     | slice s e t =>
-      have hok := setSteps_ok dev (.slice s e t) d (WF_top d hw) hg.1 (fun _ h => by cases h) (fun _ h => by cases h)
+      have hok := setSteps_ok (σ := σ) dev (.slice s e t) d (WF_top d hw) hg.1 (fun _ h => by cases h) (fun _ h => by cases h)
       simp only [setF, List.isEmpty_cons, Bool.false_eq_true, if_false] at hst ⊢
       exact delF_visit dev (.slice s e t) g r d hw hnd hok hrec hst
     | filter p =>
-      have hok := setSteps_ok dev (.filter p) d (WF_top d hw) hg.1 (fun _ h => by cases h) (fun _ h => by cases h)
+      have hok := setSteps_ok (σ := σ) dev (.filter p) d (WF_top d hw) hg.1 (fun _ h => by cases h) (fun _ h => by cases h)
       simp only [setF, List.isEmpty_cons, Bool.false_eq_true, if_false] at hst ⊢
       exact delF_visit dev (.filter p) g r d hw hnd hok hrec hst
 
 /-- Del on simple data, a path without descent: if no error is reported, the data afterwards is the input with
 the selected object members gone and the selected array elements null, everything else as it was -/
-theorem delM_eq (dev : Dev) (x : List Frag) (d d' : JV) (hnd : NoDescent x) (hw : WF d) (hg : GoodPathS dev x d)
-    (h : setM false dev false .del x d = .ok d') : d' = delAll (locs x d) d := by
+theorem delM_eq (dev : Dev) (x : List Frag) (d d' : JV) (hnd : NoDescent x) (hw : WF d) (hg : GoodPathS σ dev x d)
+    (h : setM false dev false .del x d = .ok d') : d' = delAll (locsG σ x d) d := by
   simp only [setM] at h
   by_cases hr : setRefuses x.getLast? = true
   · simp [hr] at h
